@@ -40,6 +40,18 @@ Lemma s_cp_sat : sat K (fun _ => True) (s_cp e file ds).
 Proof.
   unfold s_cp. eapply get_stream_sat; [exact Hwf|]. intros s Hs Hl. apply read_crashpad_info_sat; [exact Hwf | unfold K; lia].
 Qed.
+Lemma s_sis_sat : sat K (fun _ => True) (s_sis p e file ds).
+Proof. unfold s_sis. eapply get_stream_sat; [exact Hwf|]. intros s Hs Hl. apply sat_lift, sysinfo_strings_rsat; assumption. Qed.
+Lemma s_as_sat : sat K (fun _ => True) (s_as e file ds).
+Proof. unfold s_as. eapply get_stream_sat; [exact Hwf|]. intros s Hs Hl. apply sat_lift, read_assertion_rsat. Qed.
+Lemma s_bp_sat : sat K (fun _ => True) (s_bp e file ds).
+Proof. unfold s_bp. eapply get_stream_sat; [exact Hwf|]. intros s Hs Hl. apply sat_lift, read_breakpad_info_rsat. Qed.
+Lemma s_mb_sat : sat K (fun _ => True) (s_mb p e file ds).
+Proof. unfold s_mb. eapply get_stream_sat; [exact Hwf|]. intros s Hs Hl. apply sat_lift, read_mac_bootargs_rsat; assumption. Qed.
+Lemma s_se_sat : sat K (fun _ => True) (s_se file ds).
+Proof. unfold s_se. eapply get_stream_sat; [exact Hwf|]. intros s Hs Hl. apply sat_lift, read_soft_errors_rsat. Qed.
+Lemma s_mc_sat : sat K (fun _ => True) (s_mc p e file ds).
+Proof. unfold s_mc. eapply get_stream_sat; [exact Hwf|]. intros s Hs Hl. apply sat_lift, read_mac_crash_info_rsat; assumption. Qed.
 Lemma s_tl_sat : sat K (fun _ => True) (s_tl p e file ds).
 Proof. unfold s_tl. stream read_thread_list_sat. Qed.
 Lemma s_ml_sat : sat K (fun _ => True) (s_ml p e file ds).
@@ -123,6 +135,12 @@ Proof.
       * unfold f_lines. eapply fld_rsat. apply raw_stream_rsat; exact Hwf.
       * unfold f_ma. eapply fld_rsat. apply (s_mem_sat p e file ds Hwf Hlen).
       * eapply fld_rsat. apply (s_cp_sat e file ds Hwf).
+      * eapply fld_rsat. apply (s_sis_sat p e file ds Hwf Hlen).
+      * eapply fld_rsat. apply (s_as_sat e file ds Hwf).
+      * eapply fld_rsat. apply (s_bp_sat e file ds Hwf).
+      * eapply fld_rsat. apply (s_mb_sat p e file ds Hwf Hlen).
+      * eapply fld_rsat. apply (s_se_sat file ds Hwf).
+      * eapply fld_rsat. apply (s_mc_sat p e file ds Hwf Hlen).
     + repeat (apply Forall_app; split).
       * apply (s_tl_sat p e file ds Hwf Hlen).
       * apply (s_ml_sat p e file ds Hwf Hlen).
@@ -325,4 +343,34 @@ Lemma crashpad_info_total : forall e all b, wf_bytes all ->
 Proof.
   intros e all b Hwf.
   exact (sat_fields _ _ _ _ (read_crashpad_info_sat e all b (ALLOC_FILE_C * blen all) Hwf (Z.le_refl _))).
+Qed.
+
+(* ------------------------------------------------------------------ round 3 corollaries *)
+Lemma mac_crash_info_total : forall p e all b, wf_bytes all -> blen all < T62 -> wf_bytes b ->
+  (forall t, read_mac_crash_info p e all b <> Pan t) /\ read_mac_crash_info p e all b <> NoFuel.
+Proof. intros p e all b H1 H2 H3. destruct (read_mac_crash_info_rsat p e all b H1 H2 H3) as (A & B & _). tauto. Qed.
+Lemma fixed_streams_total : forall p e all b, wf_bytes all -> blen all < T62 -> wf_bytes b ->
+  ((forall t, sysinfo_strings p e all b <> Pan t) /\ sysinfo_strings p e all b <> NoFuel) /\
+  ((forall t, read_mac_bootargs p e all b <> Pan t) /\ read_mac_bootargs p e all b <> NoFuel) /\
+  ((forall t, read_assertion e b <> Pan t) /\ read_assertion e b <> NoFuel) /\
+  ((forall t, read_breakpad_info e b <> Pan t) /\ read_breakpad_info e b <> NoFuel) /\
+  ((forall t, read_soft_errors b <> Pan t) /\ read_soft_errors b <> NoFuel).
+Proof.
+  intros p e all b H1 H2 H3.
+  destruct (sysinfo_strings_rsat p e all b H1 H2 H3) as (A1 & A2 & _).
+  destruct (read_mac_bootargs_rsat p e all b H1 H2 H3) as (B1 & B2 & _).
+  destruct (read_assertion_rsat e b) as (C1 & C2 & _).
+  destruct (read_breakpad_info_rsat e b) as (D1 & D2 & _).
+  destruct (read_soft_errors_rsat b) as (E1 & E2 & _). tauto.
+Qed.
+(* printing a stack of [len] bytes / a hex dump of [len] bytes, with fuel len + 1 *)
+Lemma print_sites_total : forall p w len, 0 <= len < T62 ->
+  ((forall t, stack_print p (Z.to_nat len + 1) w len 0 <> Pan t) /\ stack_print p (Z.to_nat len + 1) w len 0 <> NoFuel) /\
+  ((forall t, hexdump_print p (Z.to_nat len + 1) len 0 <> Pan t) /\ hexdump_print p (Z.to_nat len + 1) len 0 <> NoFuel) /\
+  chunk_size w = array_len w.
+Proof.
+  intros p w len H.
+  destruct (stack_print_rsat p w (Z.to_nat len + 1) len 0) as (A1 & A2 & _); try lia.
+  destruct (hexdump_print_rsat p (Z.to_nat len + 1) len 0) as (B1 & B2 & _); try lia.
+  pose proof (chunk_array_agree w). tauto.
 Qed.
